@@ -27,7 +27,7 @@ func newCounter[InputType comparable](condition ...func(inputValue InputType) bo
 func (c *counter[InputType]) Monitor(input ReadableVariable[InputType]) (unsubscribe func()) {
 	var conditionWasTrue bool
 
-	return input.OnUpdate(func(_, newInputValue InputType) {
+	unsubscribeFromInput := input.OnUpdate(func(_, newInputValue InputType) {
 		c.Compute(func(currentValue int) int {
 			if conditionIsTrue := c.condition(newInputValue); conditionIsTrue != conditionWasTrue {
 				if conditionIsTrue {
@@ -42,4 +42,19 @@ func (c *counter[InputType]) Monitor(input ReadableVariable[InputType]) (unsubsc
 			return currentValue
 		})
 	}, true)
+
+	return func() {
+		unsubscribeFromInput()
+
+		// the input is no longer monitored, so it is no longer counted
+		c.Compute(func(currentValue int) int {
+			if conditionWasTrue {
+				currentValue--
+
+				conditionWasTrue = false
+			}
+
+			return currentValue
+		})
+	}
 }
